@@ -1,0 +1,69 @@
+//go:build verif
+
+// Contracts for the deductive verifier in /verif (govc). Comment-only: this file declares nothing and is
+// compiled only under the build tag `verif`. Syntax: see /verif/DESIGN.md §2.5.
+
+package snapshot
+
+//@ file archive.go
+
+// Z1: the checksum list verifies only if every listed line parses, names a member we hashed and carries that
+// member's digest - and every member we hashed is listed.
+//@ func hashList.DecodeAndVerify
+//@ props C20
+//@ opt record DecodeAndVerify
+//@ results err
+//@ requires hl != nil && hl.hashes != nil
+//@ ensures[every-line-verified] err == nil ==> forall j int :: 0 <= j && j < lineCount(r) ==> scanOK(lineAt(r, j)) && has(hl.hashes, scanFile(lineAt(r, j))) && eq(scanSha(lineAt(r, j)), hl.hashes[scanFile(lineAt(r, j))].Sum([]byte{}))
+//@ ensures[does-not-restore] called("raftRestore") <==> old(called("raftRestore"))
+//@ ensures[every-member-listed] err == nil ==> forall name string :: has(hl.hashes, name) ==> exists j int :: 0 <= j && j < lineCount(r) && scanFile(lineAt(r, j)) == name
+//@ loop 1 invariant[position] 0 <= scanPos(s) && scanPos(s) <= lineCount(r) && 0 <= lineCount(r)
+//@ loop 1 invariant[lines-so-far-verified] forall j int :: 0 <= j && j < scanPos(s) ==> scanOK(lineAt(r, j)) && has(hl.hashes, scanFile(lineAt(r, j))) && eq(scanSha(lineAt(r, j)), hl.hashes[scanFile(lineAt(r, j))].Sum([]byte{}))
+//@ loop 1 invariant[seen-are-listed] forall name string :: has(seen, name) ==> exists j int :: 0 <= j && j < scanPos(s) && scanFile(lineAt(r, j)) == name
+//@ loop 2 invariant[visited-were-seen] forall name string :: range2_visited[name] ==> has(seen, name)
+
+// Z2 (control part): an archive is accepted only if it holds nothing but the three expected members and the
+// checksum list verified; any tar error other than the regular end rejects it.
+//@ func read
+//@ props C20
+//@ opt record read
+//@ results err
+//@ ensures[only-expected-members] err == nil ==> forall j int :: 0 <= j && j < tarCount(in) ==> tarName(in, j) == "meta.json" || tarName(in, j) == "state.bin" || tarName(in, j) == "SHA256SUMS"
+//@ ensures[checksums-verified] err == nil ==> called("DecodeAndVerify") && lastErr("DecodeAndVerify") == nil
+//@ ensures[does-not-restore] called("raftRestore") <==> old(called("raftRestore"))
+//@ loop 1 invariant[walk] tarSrc(archive) == any(in) && 0 <= tarPos(archive) && tarPos(archive) <= tarCount(in)
+//@ loop 1 invariant[members-so-far-expected] forall j int :: 0 <= j && j < tarPos(archive) ==> tarName(in, j) == "meta.json" || tarName(in, j) == "state.bin" || tarName(in, j) == "SHA256SUMS"
+//@ loop 1 invariant[does-not-restore] called("raftRestore") <==> old(called("raftRestore"))
+
+//@ file snapshot.go
+
+// gzip trailer / trailing garbage check
+//@ func concludeGzipRead
+//@ trusted
+//@ opt record concludeGzipRead
+//@ results err
+
+// Z4: Verify and Read succeed only if the archive was read and verified and the compressed stream ended cleanly
+//@ func Verify
+//@ props C20
+//@ results meta, err
+//@ ensures[archive-verified] err == nil ==> called("read") && lastErr("read") == nil
+//@ ensures[stream-ended-cleanly] err == nil ==> called("concludeGzipRead") && lastErr("concludeGzipRead") == nil
+//@ ensures[metadata-returned] err == nil ==> meta != nil
+
+//@ func Read
+//@ props C20
+//@ opt record Read
+//@ results file, meta, err
+//@ ensures[archive-verified] err == nil ==> called("read") && lastErr("read") == nil
+//@ ensures[stream-ended-cleanly] err == nil ==> called("concludeGzipRead") && lastErr("concludeGzipRead") == nil
+//@ ensures[failed-hands-out-nothing] err != nil ==> file == nil && meta == nil
+//@ ensures[does-not-restore] called("raftRestore") <==> old(called("raftRestore"))
+
+// Z3: the state is handed to Raft only after the whole archive has been read and verified
+//@ func Restore
+//@ props C20
+//@ results err
+//@ requires !called("raftRestore")
+//@ ensures[restore-only-after-verification] called("raftRestore") ==> lastErr("Read") == nil
+//@ ensures[unverified-archive-is-an-error] lastErr("Read") != nil ==> err != nil && !called("raftRestore")
